@@ -514,7 +514,7 @@ func checkC19(c *c19Case, r *vstat.Run) outcome {
 		switch c.Static {
 		case "OnlyUnexported", "NoTags", "LeftRec", "DeepBad", "EmbedBadLater", "EmbedUnclosedLater":
 			expect, reason = tagMalformed, "no usable field / left recursion / unknown token type in a deeply embedded field"
-		case "Unexported", "Nested", "Rec", "EmbedSelf", "EmbedPair", "EmbedVal", "Deep", "Layers15", "Layers30":
+		case "Unexported", "Nested", "Rec", "EmbedSelf", "EmbedPair", "EmbedVal", "Deep", "Layers15", "Layers30", "EdgeLayers30":
 			expect = tagValid
 		}
 		if strings.HasPrefix(c.Static, "example:") {
@@ -634,8 +634,33 @@ type (
 	c19L30 = c19Layer[c19Layer[c19Layer[c19Layer[c19Layer[c19L25]]]]]
 )
 
+// c19EdgeLayer: the references to the next layer are the first thing in each alternative (so they lie on the left
+// edge of the production and can each match nothing as far as Build knows before it has looked).
+type c19EdgeLayer[T any] struct {
+	A *T `( @@`
+	B *T `| @@`
+	C *T `| @@ ) "x"`
+}
+type (
+	c19E5  = c19EdgeLayer[c19EdgeLayer[c19EdgeLayer[c19EdgeLayer[c19EdgeLayer[c19Leaf]]]]]
+	c19E10 = c19EdgeLayer[c19EdgeLayer[c19EdgeLayer[c19EdgeLayer[c19EdgeLayer[c19E5]]]]]
+	c19E15 = c19EdgeLayer[c19EdgeLayer[c19EdgeLayer[c19EdgeLayer[c19EdgeLayer[c19E10]]]]]
+	c19E20 = c19EdgeLayer[c19EdgeLayer[c19EdgeLayer[c19EdgeLayer[c19EdgeLayer[c19E15]]]]]
+	c19E25 = c19EdgeLayer[c19EdgeLayer[c19EdgeLayer[c19EdgeLayer[c19EdgeLayer[c19E20]]]]]
+	c19E30 = c19EdgeLayer[c19EdgeLayer[c19EdgeLayer[c19EdgeLayer[c19EdgeLayer[c19E25]]]]]
+)
+
 func buildStatic(name string) (bool, error) {
 	switch name {
+	case "EdgeLayers30":
+		p, err := participle.Build[c19E30]()
+		if err == nil {
+			v, perr := p.ParseString("", "7"+strings.Repeat(" x", 30))
+			if perr != nil || v.A == nil || v.A.A == nil {
+				return false, fmt.Errorf("layered grammar built but does not parse its own language: %v", perr)
+			}
+		}
+		return p != nil, err
 	case "Layers15":
 		p, err := participle.Build[c19L15]()
 		return p != nil, err
@@ -734,7 +759,7 @@ func buildStatic(name string) (bool, error) {
 	return false, fmt.Errorf("harness: unknown static type")
 }
 
-var c19Statics = []string{"Rec", "Unexported", "OnlyUnexported", "NoTags", "Nested", "WithIface", "MapField", "ChanField", "LeftRec", "string", "*Rec", "[]Rec", "map", "any", "EmbedSelf", "EmbedPair", "EmbedVal", "Deep", "DeepBad", "EmbedBadLater", "EmbedUnclosedLater", "ParseableVal", "ParseIface", "SelfSlice", "SelfPtrSlice", "Layers15", "Layers30"}
+var c19Statics = []string{"Rec", "Unexported", "OnlyUnexported", "NoTags", "Nested", "WithIface", "MapField", "ChanField", "LeftRec", "string", "*Rec", "[]Rec", "map", "any", "EmbedSelf", "EmbedPair", "EmbedVal", "Deep", "DeepBad", "EmbedBadLater", "EmbedUnclosedLater", "ParseableVal", "ParseIface", "SelfSlice", "SelfPtrSlice", "Layers15", "Layers30", "EdgeLayers30"}
 
 func describeC19(c *c19Case) string {
 	if c.Grammar != nil {
